@@ -7,6 +7,8 @@
 -/
 import YashModel.Quote.ScriptLemmas
 import YashModel.Quote.StateLemmas
+import YashModel.Exec.Identify
+import YashModel.Args.Bespoke
 namespace YashModel.Quote
 open YashModel.Generated.QuoteTables
 open Listing
@@ -394,12 +396,12 @@ theorem state_constants_match_sources :
 
 /-- ★ every file that calls the quoter (list re-extracted from yash-builtin / yash-semantics / yash-cli /
     yash-prompt on every run; the extractor fails on an unclassified file) and is classified as a re-readable
-    listing is one of the printers the model transcribes; the only re-readable producer NOT modelled is
-    `command -v` (`command/identify.rs`). -/
+    listing is one of the printers the model transcribes (`command -v`'s alias form included); no re-readable
+    producer is left unmodelled. -/
 theorem listing_producers_modelled :
     (∀ p ∈ quoteProducers, p.2 = "listing" → p.1 ∈ modelledPrinters)
     ∧ (∀ f ∈ modelledPrinters, (f, "listing") ∈ quoteProducers)
-    ∧ (quoteProducers.filter (·.2 = "listing-unmodelled")).map (·.1) = ["yash-builtin/src/command/identify.rs"] := by
+    ∧ (quoteProducers.filter (·.2 = "listing-unmodelled")).map (·.1) = [] := by
   decide
 
 /-- ★ whole text, `alias`, STATE level: for EVERY state whose aliases are outside the cross-bracket case (names
@@ -440,5 +442,67 @@ theorem trap_any_condition_listing_text_recreates (ts : List (String × List Cha
     rfl
 
 example : ("WINCH" : String) ∈ virtualSignals.map (·.1) := by decide
+
+/-! ## Wave 3c: `command -v` -/
+
+/-- ★ `command -v <alias name>` prints "a command line that would redefine the alias" (docs/builtins/command.md):
+    for EVERY alias whose name is not a reserved word (those are reported as keywords), outside the
+    cross-bracket case, the printed line — `alias [-- ]<quoted name>=<quoted value>` — in front of any text
+    evaluates in a fresh shell to exactly that alias (the `--` is there exactly when the name starts with `-`,
+    so the operand is never taken for an option). -/
+theorem commandv_alias_line_recreates (n v rest : List Char) (hk : keywords.contains n = false)
+    (hn : '=' ∉ n) (h : crossBracket n v = false) :
+    evalScript (printCommandV (n, v) ++ rest) = (evalScript rest).map ([Effect.alias n v] ++ ·) := by
+  unfold printCommandV
+  simp only [hk, Bool.false_eq_true, if_false]
+  by_cases hd : n.head? = some '-'
+  · simp only [hd, if_true]
+    have := alias_line_effects n v rest hn h
+    have e : "alias ".toList ++ "-- ".toList = "alias -- ".toList := by decide
+    simp only [printAlias, List.append_assoc] at this ⊢
+    rw [← List.append_assoc "alias ".toList, e]
+    exact this
+  · simp only [hd, if_false, List.append_nil]
+    have := alias_line_effects_nodash n v rest hn hd h
+    simp only [printAlias, List.append_assoc] at this ⊢
+    exact this
+
+/-- ★ composition with C02's model of `command -v` (`Exec/Identify.lean`: `categorize` decides WHICH form is
+    printed — keyword before alias before the command search — and `describeShort` prints alias definitions for
+    names / replacements that need no quoting): the two keyword tables (extracted separately by the two plugins)
+    are the same set, and for every alias (not a keyword) whose name and replacement the quoter prints bare,
+    C02's text is C07's line. -/
+theorem commandv_agrees_with_identify :
+    Generated.ExecTables.keywords.map String.toList = keywords
+    ∧ ∀ (name r : List Char), keywords.contains name = false →
+        strNeedsQuoting name = false → strNeedsQuoting r = false →
+        Exec.Identify.describeShort name (.alias name r) ++ ['\n'] = printCommandV (name, r) := by
+  refine ⟨by rfl, ?_⟩
+  intro name r hk hn hr
+  show "alias ".toList ++ (if name.head? = some '-' then "-- ".toList else []) ++ name ++ '=' :: r ++ ['\n']
+    = (if keywords.contains name then name ++ ['\n'] else "alias ".toList
+        ++ (if name.head? = some '-' then "-- ".toList else []) ++ quote name ++ ['='] ++ quote r ++ ['\n'])
+  rw [hk, quote_bare hn, quote_bare hr]
+  simp only [Bool.false_eq_true, if_false, List.append_assoc, List.cons_append, List.nil_append]
+
+example : printCommandV ("-a b".toList, "x'y".toList) = "alias -- '-a b'=\"x'y\"\n".toList := by decide
+example : printCommandV ("if".toList, "x".toList) = "if\n".toList := by decide
+
+/-! ## Wave 3c: `set ±o name` and C20's `set` parser -/
+
+/-- ★ composition with C20's model of the `set` built-in's own argument parser (`Args/Bespoke.lean` `setParse`:
+    `try_parse_short` with the `-o name` arm, modifiability check, portable mode): the command `set -o name` /
+    `set +o name` that `set +o` prints for a modifiable option, whenever the option-name module resolves the
+    printed name to that option (`parse_long(name) = Ok(name, On)` — the canonical name is a full name), is
+    parsed outside portable mode as exactly "modify [(name, on)], positional parameters untouched": the reading
+    `evalCmd` gives the line (`Effect.setopt name on`).  For EVERY name table, option and state. -/
+theorem seto_command_parsed_by_set (nm : Args.Bespoke.Names) (name : List Char) (on : Bool)
+    (hl : nm.parseLong name = .ok name true) (hm : (nm.infoOf name).modifiable = true) :
+    Args.Bespoke.setParse nm false [[if on then '-' else '+', 'o'], name] = .ok (.modify [(name, on)] none)
+    ∧ evalCmd ⟨[], "set".toList :: [[if on then '-' else '+', 'o'], name]⟩ = some [Effect.setopt name on] := by
+  refine ⟨?_, evalCmd_set name on⟩
+  cases on <;>
+    simp [Args.Bespoke.setParse, Args.Bespoke.setLoop, Args.Bespoke.setStep, Args.Bespoke.shortSign, Args.Bespoke.setShortLoop, Args.Bespoke.oArm, hl, hm,
+      Args.Bespoke.Step.ofShort, Args.Bespoke.prependO, Args.Bespoke.finishSet]
 
 end YashModel.Quote
